@@ -28,6 +28,10 @@ type Solver struct {
 	cmd     *exec.Cmd
 	in      io.WriteCloser
 	out     *bufio.Reader
+	lines   chan string
+	Dead    bool
+	Timeouts int
+	QueryTimeout time.Duration
 	defined map[int]bool
 	level   int
 	rec     io.Writer // optional transcript for the solver diff
@@ -64,10 +68,23 @@ func NewSolver(kind string, rec io.Writer) (*Solver, error) {
 	if err := cmd.Start(); err != nil {
 		return nil, err
 	}
-	s := &Solver{cmd: cmd, in: in, out: bufio.NewReaderSize(outp, 1<<16), defined: map[int]bool{}, rec: rec, kind: kind}
+	s := &Solver{cmd: cmd, in: in, out: bufio.NewReaderSize(outp, 1<<16), defined: map[int]bool{}, rec: rec, kind: kind,
+		lines: make(chan string, 1024), QueryTimeout: 40 * time.Second}
+	go func() {
+		for {
+			l, err := s.out.ReadString('\n')
+			if l != "" {
+				s.lines <- l
+			}
+			if err != nil {
+				close(s.lines)
+				return
+			}
+		}
+	}()
 	if kind != "cvc5" {
 		s.send("(set-option :global-declarations true)")
-		s.send("(set-option :timeout 30000)")
+		s.send("(set-option :timeout 10000)")
 	} else {
 		s.send("(set-option :tlimit-per 30000)")
 		s.send("(set-logic QF_BV)")
@@ -76,6 +93,9 @@ func NewSolver(kind string, rec io.Writer) (*Solver, error) {
 }
 
 func (s *Solver) send(line string) {
+	if s.Dead {
+		return
+	}
 	if s.rec != nil {
 		fmt.Fprintln(s.rec, line)
 	}
@@ -85,6 +105,12 @@ func (s *Solver) send(line string) {
 
 func (s *Solver) Close() {
 	if s.cmd == nil {
+		return
+	}
+	if s.Dead {
+		s.cmd.Process.Kill()
+		go s.cmd.Wait()
+		s.cmd = nil
 		return
 	}
 	s.in.Close()
@@ -106,7 +132,7 @@ func (s *Solver) Reset() {
 	s.level = 0
 	if s.kind != "cvc5" {
 		s.send("(set-option :global-declarations true)")
-		s.send("(set-option :timeout 30000)")
+		s.send("(set-option :timeout 10000)")
 	} else {
 		s.send("(set-option :tlimit-per 30000)")
 		s.send("(set-logic QF_BV)")
@@ -164,8 +190,31 @@ func (s *Solver) Assert(t *Term) {
 	s.send("(assert " + t.ref() + ")")
 }
 
+var errSolverTimeout = fmt.Errorf("solver query exceeded the hard time limit")
+
+// readRaw returns the next output line; the watchdog kills a solver that does not answer within
+// QueryTimeout (z3's own :timeout is not honoured in every phase).
+func (s *Solver) readRaw() (string, error) {
+	if s.Dead {
+		return "", errSolverTimeout
+	}
+	select {
+	case l, ok := <-s.lines:
+		if !ok {
+			s.Dead = true
+			return "", io.EOF
+		}
+		return l, nil
+	case <-time.After(s.QueryTimeout):
+		s.Dead = true
+		s.Timeouts++
+		s.cmd.Process.Kill()
+		return "", errSolverTimeout
+	}
+}
+
 func (s *Solver) readLine() (string, error) {
-	l, err := s.out.ReadString('\n')
+	l, err := s.readRaw()
 	return strings.TrimSpace(l), err
 }
 
@@ -269,7 +318,7 @@ func (s *Solver) ModelWith(vars []*Term, extra ...*Term) (SatResult, map[string]
 	started := false
 	var txt strings.Builder
 	for {
-		l, err := s.out.ReadString('\n')
+		l, err := s.readRaw()
 		if err != nil {
 			return Unknown, nil
 		}
